@@ -983,7 +983,7 @@ func (vc *VC) methodIsPure(m *types.Func) bool {
 		}
 	}
 	for _, p := range effectfulPrefixes {
-		if strings.HasPrefix(m.Name(), p) {
+		if n := m.Name(); strings.HasPrefix(n, p) && (len(n) == len(p) || n[len(p)] >= 'A' && n[len(p)] <= 'Z') {
 			return false
 		}
 	}
